@@ -6,11 +6,18 @@ McTimesQ == {1830, 1860, 3630, 3660, 3690, 3720}
 McTimesT == {1830, 1860, 1890, 3600, 3630, 3660, 3690, 3720, 3750}
 McRootQ == {1830}
 McRootT == {1830, 1860}
-E(t, b, u) == [x \in Tx |-> IF x \in {"t", "t2"} THEN t ELSE IF x = "b" THEN b ELSE u]
+E(t, b, u) == [x \in Tx |-> IF x \in {"t", "t2"} THEN t ELSE IF x \in Boxes THEN b ELSE u]
 \* t legal in blocks timed [1830, 3630]; box b a little shorter; u later
 McExpQ == {E(3630, 3630, 3690)}
 McExpT == {E(3630, 3630, 3690), E(3630, 3600, 3660), E(3660, 3630, 3720)}
 McMenu == {{}, {"t"}, {"t2"}, {"b"}, {"u"}, {"t", "u"}}
 McQMenu == {{"t"}, {"t2"}, {"b"}, {"u"}, {"t", "u"}, {"b", "u"}}
-ASSUME \A e \in McExpT : e["b"] <= e["t"] /\ e["t"] = e["t2"]
+\* carrier encodings: the same content in boxes whose payloads are written differently / in another box; saved and asked in every encoding
+McTimesC == {1830}
+McMenuC == {{}, {"t"}, {"b"}, {"w"}}
+McQMenuC == {{"t"}, {"b"}, {"w"}, {"u"}}
+McTimesCT == {1830, 3660}
+McMenuCT == {{}, {"t"}, {"b"}, {"w"}, {"b", "u"}}
+McQMenuCT == {{"t"}, {"t2"}, {"b"}, {"w"}, {"u"}}
+ASSUME \A e \in McExpT : e["b"] <= e["t"] /\ e["t"] = e["t2"] /\ e["w"] = e["b"]
 ====
